@@ -32,7 +32,7 @@ pub fn case(tape: &[u32]) -> CaseOutcome {
         let tree = pysrc::parse(source);
         let index = TreeIndex::new(&tree);
         let model = model_run(&program.gen.prog, &tree, &index, source, &program.gen.globals, Default::default());
-        let (actual, _polls) = run(&file, &tree, &index, source, &program.gen.globals, &ExecOpts::default());
+        let (actual, _polls) = run_capped(&file, &tree, &index, source, &program.gen.globals, &ExecOpts::default(), model.poll_cap());
         report.evaluations += 1;
         let d = |extra| detail(dsl, source, &program.gen.globals, extra);
         match (&model.outcome, &actual) {
